@@ -28,6 +28,12 @@ Proof. vm_compute. reflexivity. Qed.
 Theorem C18_attr_ws_quoted : forall ops s, attr_inv s -> attr_inv (attr_run s ops).
 Proof. exact attr_ws_quoted_lemma. Qed.
 
+(* a key may be hidden exactly when the stripped name is a positive decimal integer without leading zeros: the
+   pattern Parameter.can_hide_key uses (the numbering of hidden keys in C10's model rests on the same definition) *)
+Theorem C18_hideable_keys_are_positive_integers :
+  can_hide_key_pattern = "match:[1-9][0-9]*$" /\ can_hide_key_strips = true.
+Proof. vm_compute. split; reflexivity. Qed.
+
 (* an accepted assignment to a Wikicode-valued attribute puts the (parsed) value in one of the node's places:
    the node then renders as  pre ++ text(value) ++ post  with pre, post independent of the value, i.e. the
    assigned text appears exactly, in place, and the rest of the node's text is what it was *)
@@ -46,3 +52,4 @@ Example C18_checker_discriminates :
   atomic_prog [Try [Store "_x"; MayRaise "f()"] [Return] []] = false.
 Proof. vm_compute. repeat split; reflexivity. Qed.
 Print Assumptions C18_assigned_child_renders_in_place.
+Print Assumptions C18_hideable_keys_are_positive_integers.
